@@ -19,6 +19,7 @@
 
 
 
+#include <limits>
 #include <cstring>
 
 
@@ -552,8 +553,10 @@ ElemNumber::getCountString(
         if (DoubleSupport::isNaN(theValue) == true ||
             DoubleSupport::isPositiveInfinity(theValue) == true ||
             DoubleSupport::isNegativeInfinity(theValue) == true ||
-            DoubleSupport::lessThan(theValue, 0.5) == true)
+            DoubleSupport::lessThan(theValue, 0.5) == true ||
+            theValue >= static_cast<double>(std::numeric_limits<CountType>::max()))
         {
+            // This includes values that CountType can't hold...
             NumberToDOMString(theValue, theResult);
         }
         else
